@@ -4,6 +4,7 @@
 //! Each module sits behind a cargo feature of the same name so that a check only compiles
 //! (codegens) the harness families of its own property.
 #![allow(dead_code, unused_imports, clippy::all)]
+#![cfg_attr(kani, feature(allocator_api))]
 
 #[cfg(all(kani, test))]
 mod audit_alloc;
@@ -37,3 +38,9 @@ mod c13_headers;
 mod c18_buffer;
 #[cfg(all(kani, feature = "c18_ffi"))]
 mod c18_ffi;
+#[cfg(all(kani, feature = "c01_router"))]
+mod c01_router;
+#[cfg(all(kani, feature = "c03_stage"))]
+mod c03_stage;
+#[cfg(all(kani, feature = "c05_merge"))]
+mod c05_merge;
